@@ -32,6 +32,9 @@ pub fn library() -> Vec<(&'static str, Option<Vec<Stmt>>)> {
     capture.extend(pr());
     vec![
         ("p_probe", Some(wrap("P", pr()))),
+        // reads the pseudo-members the path finder answers one level down; as *top-level* names they are
+        // ordinary names that nobody defined (whatever number of arguments the scope holds)
+        ("p_pseudo", Some(wrap("S", probes(&["size", "first", "last"])))),
         ("p_assign", Some(wrap("A", assign))),
         ("p_capture", Some(wrap("C", capture))),
         ("p_incr", Some(wrap("I", vec![Stmt::Incr("c".into())]))),
@@ -142,6 +145,9 @@ pub fn grammar(max_n: usize) -> Grammar {
     // (the partial gets its item and a truthful forloop)
     leaves.push(Stmt::Render { name: Expr::s("p_probe"), form: RenderForm::For(Src::Expr(Expr::var("arr")), "x".into()), args: vec![("x".into(), Expr::s("?")), ("y".into(), Expr::s("?"))] });
     leaves.push(Stmt::Render { name: Expr::s("p_forloop"), form: RenderForm::For(Src::Range(Expr::int(1), Expr::int(2)), "y".into()), args: vec![("forloop".into(), Expr::s("?"))] });
+    leaves.push(Stmt::Render { name: Expr::s("p_pseudo"), form: RenderForm::Plain, args: vec![("x".into(), Expr::s("?")), ("y".into(), Expr::s("?"))] });
+    leaves.push(Stmt::Render { name: Expr::s("p_pseudo"), form: RenderForm::With(Expr::var("y"), "x".into()), args: vec![] });
+    leaves.push(Stmt::Include { name: Expr::s("p_pseudo"), args: vec![("x".into(), Expr::s("?"))] });
     // names that differ from an existing partial's only by surrounding whitespace name nothing
     leaves.push(Stmt::Include { name: Expr::s(" p_probe"), args: vec![] });
     leaves.push(Stmt::Render { name: Expr::s("p_probe "), form: RenderForm::Plain, args: vec![] });
